@@ -151,19 +151,59 @@ func hashStrings(s []string) uint64 {
 	return h
 }
 
-func usedTarget(cfg idxbfs.Config) *index.Hnsw {
-	t := index.NewHnsw(2, idxlib.Space(cfg.Space), cfg.Options()...)
-	t.Insert(idxlib.IDs[0], []float32{4, 1}, index.Metadata{"old": "value"}, 1)
-	t.Insert(idxlib.IDs[5], []float32{2, 2}, nil, 0)
-	t.Insert(idxlib.IDs[1], []float32{3, 3}, nil, 0)
+func usedTarget(cfg idxbfs.Config) *index.Hnsw { return usedTargetDim(cfg, 2) }
+
+// wide pads a 2-component vector to dim components with a non-repeating tail (so that a block copied to the wrong
+// place shows).
+func wide(v []float32, dim int) []float32 {
+	out := make([]float32, dim)
+	for i := range out {
+		if i < len(v) {
+			out[i] = v[i]
+		} else {
+			out[i] = float32(i)*0.25 + v[0]
+		}
+	}
+	return out
+}
+
+func usedTargetDim(cfg idxbfs.Config, dim int) *index.Hnsw {
+	t := index.NewHnsw(uint(dim), idxlib.Space(cfg.Space), cfg.Options()...)
+	t.Insert(idxlib.IDs[0], wide([]float32{4, 1}, dim), index.Metadata{"old": "value"}, 1)
+	t.Insert(idxlib.IDs[5], wide([]float32{2, 2}, dim), nil, 0)
+	t.Insert(idxlib.IDs[1], wide([]float32{3, 3}, dim), nil, 0)
 	t.Remove(idxlib.IDs[1])
 	return t
+}
+
+// checkDims round-trips small indexes of other dimensions than the BFS uses (1 .. 515: below, at and above every
+// power of two up to 512 - any blocking of the vector encoding has its boundary there).
+func checkDims(cfg idxbfs.Config) (string, string, int) {
+	n := 0
+	for _, dim := range []int{1, 3, 7, 8, 9, 31, 32, 33, 63, 64, 65, 127, 128, 129, 200, 255, 256, 257, 511, 512, 515} {
+		ix := index.NewHnsw(uint(dim), idxlib.Space(cfg.Space), cfg.Options()...)
+		for i, v := range [][]float32{{1, 1}, {2, 1}, {3, 3}} {
+			if err := ix.Insert(idxlib.IDs[i], wide(v, dim), index.Metadata{"i": fmt.Sprint(i)}, i%2); err != nil {
+				return "insert-error", fmt.Sprintf("dimension %d: %v", dim, err), n
+			}
+		}
+		ix.Remove(idxlib.IDs[1])
+		n++
+		if k, d := roundTripDim(cfg, ix, false, dim); k != "" {
+			return k + fmt.Sprintf(":dimension-%d", dim), fmt.Sprintf("dimension %d: %s", dim, d), n
+		}
+	}
+	return "", "", n
 }
 
 var counters = struct{ Loads, Splits int }{}
 
 // roundTrip checks every (header, target, reader) combination for one index state.
 func roundTrip(cfg idxbfs.Config, ix *index.Hnsw, allSplits bool) (string, string) {
+	return roundTripDim(cfg, ix, allSplits, 2)
+}
+
+func roundTripDim(cfg idxbfs.Config, ix *index.Hnsw, allSplits bool, dim int) (string, string) {
 	before := liveDump(ix.VerifDump())
 	for _, header := range []bool{false, true} {
 		var buf bytes.Buffer
@@ -177,11 +217,11 @@ func roundTrip(cfg idxbfs.Config, ix *index.Hnsw, allSplits bool) (string, strin
 				other := idxbfs.Config{Space: "manhattan", M: 3, Ef: 7, EfC: 9}
 				switch {
 				case target == "used":
-					t = usedTarget(cfg)
+					t = usedTargetDim(cfg, dim)
 				case header:
-					t = index.NewHnsw(5, idxlib.Space(other.Space), other.Options()...) // the header must override all of this
+					t = index.NewHnsw(uint(dim+3), idxlib.Space(other.Space), other.Options()...) // the header must override all of this
 				default:
-					t = index.NewHnsw(2, idxlib.Space(cfg.Space), cfg.Options()...)
+					t = index.NewHnsw(uint(dim), idxlib.Space(cfg.Space), cfg.Options()...)
 				}
 				r := &countingReader{data: data, plan: rs.plan}
 				if rs.name == "whole-then-more-data" {
@@ -318,7 +358,9 @@ func main() {
 		}
 		json.Unmarshal(b, &f)
 		var k, d string
-		if f.Replay.Shape != "" {
+		if bytes.Contains(b, []byte(`"dims": true`)) {
+			k, d, _ = checkDims(f.Replay.Cfg)
+		} else if f.Replay.Shape != "" {
 			k, d, _ = checkShapes(f.Replay.Cfg, f.Replay.Shape)
 		} else {
 			w, _, _ := idxbfs.Build(f.Replay.Cfg, f.Replay.Ops)
@@ -466,6 +508,15 @@ func main() {
 			run.Violation(r.Key, r.Desc, map[string]interface{}{"config": cfgs[0], "shape": s.Name})
 		}
 	}
+	// dimensions other than the BFS's 2
+	dimIndexes := 0
+	for _, cfg := range cfgs[:1] {
+		k, d, nd := checkDims(cfg)
+		dimIndexes += nd
+		if k != "" {
+			run.Violation(k, d, map[string]interface{}{"config": cfg, "dims": true})
+		}
+	}
 	const n = 16
 	total := seq.Stats{Outcomes: map[string]int{}, Complete: true, DepthCompleted: depth}
 	loads := 0
@@ -501,6 +552,7 @@ func main() {
 		"states = those of the C01 alphabet (ids {a..d}, 6-point grid, levels 0..2, 3 metadata shapes) for two small-M configurations, plus a product of 10 metadata shapes on a 2-item index",
 		"every two-fragment split (and split + zero-length read) for streams of states up to depth " + fmt.Sprint(splitDepth) + " without header; whole and one-byte readers for all states and with header",
 		"allocation bound during Load: 64*|bytes| + 64 KiB (TotalAlloc delta, single-threaded worker)",
+		"directed: 3-item indexes (one removed) of dimensions 1..515 (below, at and above every power of two up to 512) round-tripped with and without header into fresh / other-dimension / used targets",
 	}
 	run.Finish(ev.Coverage{
 		"states":                        total.States,
@@ -512,6 +564,7 @@ func main() {
 		"depth":                         depth,
 		"depth_completed":               total.DepthCompleted,
 		"loads":                         loads + shapeLoads,
+		"other_dimension_indexes":       dimIndexes,
 		"outcome_classes":               total.Outcomes,
 		"samples":                       []interface{}{"euclidean M=1: I a[1 1]@0; I b[2 1]@1; R a -> Save(no header) -> every split of the stream -> Load into used index", fmt.Sprintf("%d metadata shapes on a 2-item index", len(shapes()))},
 		"exhaustive":                    total.Complete,
